@@ -465,6 +465,8 @@ func checkC03(rep *core.Report) {
 	r4 := rep.Rule("R03.4", "one specifier element feeds id, length, octets and type of a decoded field; template order; scope first", 6)
 	r5 := rep.Rule("R03.5", "variable-length fields: marker 65535, 1-octet length, 255 escapes to a 2-octet length", 4)
 	r6 := rep.Rule("R03.6", "options template: scope count and field count feed the right lists", 2)
+	r7 := rep.Rule("R03.7", "whoever reads one specifier list of a template reads the other too (records = scope fields + fields)", 1)
+	checkBothFieldLists(prog, r7, "ipfix")
 	checkLayoutSeq(prog, r1, "ipfix", "MessageHeader", []specField{{"Version", 2}, {"Length", 2}, {"ExportTime", 4}, {"SequenceNo", 4}, {"DomainID", 4}}, "IPFIX message header (RFC 7011 3.1)")
 	checkLayoutSeq(prog, r1, "ipfix", "SetHeader", []specField{{"SetID", 2}, {"Length", 2}}, "IPFIX set header (RFC 7011 3.3.2)")
 	for _, f := range findFillers(prog, "ipfix", "TemplateHeader") {
@@ -586,6 +588,8 @@ func checkC06(rep *core.Report) {
 	r4 := rep.Rule("R06.3", "one specifier element feeds id, length, octets and type of a decoded field; template order; scope first", 6)
 	r5 := rep.Rule("R06.4", "flowset id routing: 0 template, 1 options template, >255 data", 3)
 	r6 := rep.Rule("R06.5", "every template record handed to the cache is a fresh object", 2)
+	r7 := rep.Rule("R06.6", "whoever reads one specifier list of a template reads the other too (records = scope fields + fields)", 1)
+	checkBothFieldLists(prog, r7, "netflow/v9")
 	checkLayoutSeq(prog, r1, "netflow/v9", "PacketHeader", []specField{{"Version", 2}, {"Count", 2}, {"SysUpTime", 4}, {"UNIXSecs", 4}, {"SeqNum", 4}, {"SrcID", 4}}, "NetFlow v9 packet header (RFC 3954 5.1)")
 	checkLayoutSeq(prog, r1, "netflow/v9", "SetHeader", []specField{{"FlowSetID", 2}, {"Length", 2}}, "flowset header")
 	checkLayoutSeq(prog, r1, "netflow/v9", "TemplateFieldSpecifier", []specField{{"ElementID", 2}, {"Length", 2}}, "field specifier (type, length)")
@@ -702,5 +706,74 @@ func checkC06(rep *core.Report) {
 		} else {
 			r6.Undecided(rel+":insert", token.NoPos, "cache insert not resolved")
 		}
+	}
+}
+
+// checkBothFieldLists (R03.7 / R06.6): a record consists of the scope fields followed by the fields. Every function
+// of the package that reads the elements of one of the two specifier lists of a template (to decode, to size, to
+// count) must read the other list as well; the template parsers, which only append, are writers and exempt.
+func checkBothFieldLists(prog *core.Program, rr *core.RuleRun, rel string) {
+	n := 0
+	for _, fn := range prog.RepoFuncs() {
+		if core.PkgRel(fn) != rel || fn.Synthetic != "" {
+			continue
+		}
+		reads := map[string]token.Pos{}
+		allInstrs(fn, func(ins ssa.Instruction) {
+			var base ssa.Value
+			switch x := ins.(type) {
+			case *ssa.IndexAddr:
+				base = x.X
+			case *ssa.Index:
+				base = x.X
+			case *ssa.Range:
+				base = x.X
+			default:
+				return
+			}
+			_, f := fieldLoad(base)
+			if f == nil {
+				if fl, ok := base.(*ssa.Field); ok {
+					if st, ok := fl.X.Type().Underlying().(*types.Struct); ok {
+						f = st.Field(fl.Field)
+					}
+				}
+			}
+			if f == nil {
+				return
+			}
+			if f.Name() == "FieldSpecifiers" || f.Name() == "ScopeFieldSpecifiers" {
+				// an element that is only written (append target slot) does not count: IndexAddr whose referrers are all stores
+				if ia, ok := ins.(*ssa.IndexAddr); ok {
+					onlyStores := true
+					for _, r := range *ia.Referrers() {
+						if st, isStore := r.(*ssa.Store); !isStore || st.Addr != ssa.Value(ia) {
+							onlyStores = false
+						}
+					}
+					if onlyStores {
+						return
+					}
+				}
+				if _, seen := reads[f.Name()]; !seen {
+					reads[f.Name()] = ins.Pos()
+				}
+			}
+		})
+		if len(reads) == 0 {
+			continue
+		}
+		n++
+		_, a := reads["FieldSpecifiers"]
+		_, b := reads["ScopeFieldSpecifiers"]
+		missing := "ScopeFieldSpecifiers"
+		if !a {
+			missing = "FieldSpecifiers"
+		}
+		rr.Check(a && b, core.FuncName(fn)+":both-field-lists", fn.Pos(), "reads scope fields and fields",
+			"this function goes through one specifier list of a template but never through "+missing+": whatever it derives (a record length, a field count, a decode) is wrong for options records, which consist of the scope fields followed by the fields")
+	}
+	if n == 0 {
+		rr.Undecided(rel+":both-field-lists", token.NoPos, "no function reads a template's specifier lists")
 	}
 }
